@@ -1171,6 +1171,43 @@ func checkWindow(e *Env, p *load.Program) {
 			}
 		}
 		r.Check(good, "E3.named", "parser.Parse/name", p.Pos(resApp.Pos()), "Name = SyscallNumbers[Num] of the same element, appended only on the `found` edge", detail)
+		// ... and the number that is reported is the number the name was looked up under: the loop itself never writes the
+		// element's Num (or the whole element) and hands the element to nobody who could
+		numOK, why := true, ""
+		for _, ref := range *ptr.Referrers() {
+			switch x := ref.(type) {
+			case *ssa.FieldAddr:
+				fname := ptr.Type().Underlying().(*types.Pointer).Elem().Underlying().(*types.Struct).Field(x.Field).Name()
+				if fname != "Num" {
+					continue
+				}
+				for _, r2 := range *x.Referrers() {
+					switch y := r2.(type) {
+					case *ssa.Store:
+						if y.Addr == ssa.Value(x) {
+							numOK, why = false, "the element's Num is overwritten at "+p.Pos(y.Pos())
+						}
+					case *ssa.UnOp, *ssa.DebugRef:
+					default:
+						numOK, why = false, "the address of the element's Num escapes at "+p.Pos(r2.Pos())
+					}
+				}
+			case *ssa.Store:
+				if x.Addr == ptr {
+					numOK, why = false, "the element is overwritten at "+p.Pos(x.Pos())
+				}
+			case ssa.CallInstruction:
+				if x != ssa.CallInstruction(parseCall) {
+					for _, a := range x.Common().Args {
+						if a == ptr {
+							numOK, why = false, "the element is handed to "+calleeNameCI(x)+", which may change its Num"
+						}
+					}
+				}
+			}
+		}
+		r.Check(numOK, "E3.named", "parser.Parse/num-unchanged", p.Pos(resApp.Pos()), "the reported Num is the value the name was looked up under (the loop never writes it)",
+			"the reported number is not the number the name was looked up under: "+why+"; the reported syscall need not exist in the table under the reported name")
 	}
 }
 
